@@ -455,6 +455,24 @@ def known_match(finding, failure):
     return False
 
 
+_known = None
+_seen = [0, 0]
+
+
+def enough_failures(ctx, limit=40):
+    """fail fast: stop generating once `limit` predicate failures that are not listed findings were recorded
+    (the run is a VIOLATION already; a broken implementation can make every further call very slow)"""
+    global _known
+    if _known is None:
+        import core
+        _known = [k for k in core.load_known() if k.get('property') == PROPERTY]
+    for f in ctx.pred_fail[_seen[0]:]:
+        if not any(known_match(k, f) for k in _known):
+            _seen[1] += 1
+    _seen[0] = len(ctx.pred_fail)
+    return _seen[1] >= limit
+
+
 # ------------------------------------------------------------------ generators
 def gen_x(rng, n, hot):
     r = rng.random()
@@ -678,9 +696,15 @@ def generate(ctx, shard=0, nshards=1):
     if shard == 0:
         check_malformed(ctx)
     nds = ctx.n(2400, 60000) // nshards + 1
+    _seen[0] = _seen[1] = 0
     for k in range(nds):
+        if enough_failures(ctx):
+            ctx.notes.append('generation stopped early: more than 40 new predicate failures in this shard')
+            break
         check_dataset(ctx, rng, full_perms=(ctx.tier == 'thorough' and k % 4 == 0) or k % 25 == 0)
     for _ in range(ctx.n(800, 16000) // nshards + 1):
+        if enough_failures(ctx):
+            break
         check_degenerate(ctx, rng)
     ctx.sample({'call': 'CurveFitting([0,1,2,3],[1,3,5,7]).linear_fitting()', 'expected': [2.0, 1.0]})
     ctx.sample({'call': 'CurveFitting([1,1,1],[1,2,3]).linear_fitting()', 'expected': 'ZeroDivisionError'})
